@@ -39,7 +39,7 @@ PROBE_SHAPES = [list(s) for d in (1, 2, 3) for s in itertools.product((1, 2, 3),
                [[4], [6], [8], [12], [13], [2, 4], [4, 2], [3, 4], [4, 3], [2, 6], [5, 5], [1, 12], [2, 3, 2], [2, 2, 3], [4, 4, 4], [3, 4, 1]]
 
 
-OPNAMES = {"R": "resize", "r": "resize", "F": "fill", "W": "write", "C": "copy", "A": "assign", "G": "generic_assign",
+OPNAMES = {"R": "resize", "r": "resize", "q": "resize", "F": "fill", "W": "write", "C": "copy", "A": "assign", "G": "generic_assign",
            "M": "cast_into", "K": "cast_kind", "T": "cast_dtype"}
 
 
@@ -122,7 +122,7 @@ class Gen:
             if not shape:
                 # default-constructed dynamic_ndarray has no shape yet: give it one first
                 s = list(rng.choice(self.rep_small))
-                steps.append(("r" if rng.random() < 0.5 else "R", s))
+                steps.append((rng.choice("Rrq"), s))
                 shape = s
                 steps.append(("F", self.base(M.prod(shape))))
                 known = True
@@ -138,7 +138,7 @@ class Gen:
                     continue
             if op == "R":
                 s = self.rand_shape()
-                steps.append(("r" if rng.random() < 0.5 else "R", s))
+                steps.append((rng.choice("Rrq"), s))
                 if cfg.representable(s) or cfg.cls == "dynamic":
                     shape = list(s)
                     known = False
@@ -201,7 +201,7 @@ class Gen:
             out.append(pre + [("C",), ("W", [e - 1 for e in shape], 7), ("A",), ("W", [0] * len(shape), 9)])
             if cfg.resizable:
                 for s2 in PROBE_SHAPES:
-                    for form in ("R", "r"):
+                    for form in ("R", "r", "q"):
                         h = pre + [(form, s2)]
                         if cfg.representable(s2) or cfg.cls == "dynamic":
                             h += [("F", 300), ("C",)]
@@ -233,7 +233,7 @@ def encode(steps):
     toks = [str(len(steps))]
     for st in steps:
         op = st[0]
-        if op in ("R", "r"):
+        if op in ("R", "r", "q"):
             toks += [op, fmt_vec(st[1])]
         elif op in ("F", "G"):
             toks += [op, str(st[1])]
@@ -321,7 +321,7 @@ class Decider:
             t.expect("Y")
             dy = M.Dump(t)
             unchanged_other = True
-            if op in ("R", "r"):
+            if op in ("R", "r", "q"):
                 s = st[1]
                 if res == "U":
                     self.stats["resize_unsupported_form"] += 1
@@ -445,8 +445,8 @@ def to_elem(cfg, v):
 def fmt_steps(steps):
     out = []
     for st in steps:
-        if st[0] in ("R", "r"):
-            out.append("%s%s" % ("resize" if st[0] == "R" else "resize...", tuple(st[1])))
+        if st[0] in ("R", "r", "q"):
+            out.append("%s%s" % ({"R": "resize", "r": "resize...", "q": "resize<static_vector>"}[st[0]], tuple(st[1])))
         elif st[0] == "W":
             out.append("a%s=%s" % (tuple(st[1]), st[2]))
         elif st[0] == "M":
@@ -466,7 +466,7 @@ def run_histories(ctx):
     if not tgs:
         return 0
     bins = build_or_fail([t for t, _ in tgs])
-    nrand = 150 if quick else 6000
+    nrand = 300 if quick else 6000
     stats = dict(ops={}, resize_refused=0, resize_accepted=0, resize_unsupported_form=0, refused_classes=set(), states=set(),
                  cast_kind=set(), cast_kind_unsupported=set(), cast_dtype=set(), cast_dtype_unsupported=set())
     dec = Decider(ctx, stats)
@@ -540,6 +540,13 @@ def run_histories(ctx):
                 if s in (0, 1, 2, 10):
                     ctx.violation("hook:%s:%s" % (cfg.name, SITE_NAMES.get(s, s)), "bounds hook %s saw index %d with bound %d in history %s" % (
                         SITE_NAMES.get(s, s), f0, f1, fmt_steps(steps)), dict(config=cfg.info(), history=[list(x) for x in steps]))
+            if "EXC" in toks and toks[0] != "EXC":
+                # an exception escaped from the library in the middle of the history: the step that was running is the last one begun
+                k = toks[:toks.index("EXC")].count("|")
+                st = steps[k - 1] if 1 <= k <= len(steps) else ("?",)
+                ctx.violation("%s:%s:exception" % (OPNAMES.get(st[0], "history"), cfg.name), "exception %s in the last operation of %s on %s" % (
+                    " ".join(toks[toks.index("EXC") + 1:][:1])[:120], fmt_steps(steps[:k]), cfg.ctype), dict(config=cfg.info(), history=[list(x) for x in steps[:k]]))
+                continue
             if toks and toks[0] in ("EXC", "ERR"):
                 ctx.violation("history:%s:exception" % cfg.name, "harness reported %s in %s" % (" ".join(toks[:4]), fmt_steps(steps)), dict(config=cfg.info(), history=[list(x) for x in steps]))
                 continue
